@@ -256,6 +256,9 @@ package scan
 //@   loop 2 invariant memo2-others: vsMemo(o, 0, i) && vsMemo(o, i+1, len(o.scanners))
 //@   loop 2 invariant memo2-this: memo_inv(o.scanners[i].samples.sn, o.scanners[i].samples.sT, o.scanners[i].samples.cur, o.scanners[i].samples.hasPrev, o.scanners[i].samples.lastSeek, o.scanners[i].samples.delta)
 //@   loop 2 invariant visited2: visited == currStep
+// (linear link between the cursor and the pre-built vectors, so that "the inner loop ends only after the
+// last vector" does not need monotonicity of currStep*step)
+//@   loop 2 invariant step-time-is-the-vectors-time: currStep < len(vectors) ==> seriesTs == vectors[currStep].T
 //@   loop 2 invariant[C18] step-vectors-own-their-buffers2: ownBuffers(vectors, len(vectors)) && sepBuffers(vectors, len(vectors))
 //@   loop 2 invariant vectors2: vsVectors(o, vectors, ts)
 //@   loop 2 invariant sought2-done: vsSought(o, 0, i, vectors[len(vectors)-1].T - o.offset)
